@@ -111,6 +111,7 @@ def run(rep, tier, seed, model_ok=True, effort=1):
         if version.parse_version(version.to_pep440(s)) != kp:
             rep.violation("{pep440_version} text differs from to_pep440 beyond normalisation", input=inp, **{"class": "pep440-vs-cli"})
         rep.sample(dict(pattern=vp, version=s, pep440=p))
+    show_streams(rep, impl)
     if model_ok:
         bad, errs = common.coq_eval("c15conv", HDR, "list N * option (list N)",
                                     "fun '(p, e) => match e with Some x => eqb_str (convert_to_pep440 p) x | None => true end", conv_items, shard=400)
@@ -123,6 +124,40 @@ def run(rep, tier, seed, model_ok=True, effort=1):
         for i in bad:
             rep.mismatch("text for {version}/{pep440_version}: model differs from implementation", input=dict(zip(("version_pattern", "version_text", "pep440_text"), txt_meta[i])))
         rep.corr_errors += errs
+
+
+def show_streams(rep, impl):
+    """the PEP440 value `show` prints -- plain, --environ and the deprecated -e -- is the PEP 440 form of the version it prints next to it, also
+    when that version comes from a VCS tag newer than the config"""
+    import packaging.version as pv
+    from . import project
+    for vp, cfgv, tag in (("vMAJOR.MINOR.PATCH[-TAG]", "v1.2.3-beta", "v1.2.4-beta"), ("MAJOR.MINOR.PATCH[PYTAGNUM]", "1.2.3rc0", "1.3.0a1"),
+                          ("vYYYY0M.BUILD[-TAG]", "v202401.1001-beta", "v202403.1002-rc"), ("{pycalver}", "v202001.0042-beta", "v202002.0043")):
+        for tags in ([], [tag, cfgv]):
+            prj = project.TempProject(vp, cfgv, files={}, commit=True, tag=True, push=False, vcs="fakegit", vcs_cfg=dict(tags=tags, status="", remote=None))
+            with prj:
+                for flags in ([], ["--environ"], ["-e"]):
+                    code, out, logs, exc = prj.run(impl, ["show", "--no-fetch"] + flags)
+                    text = out + "\n" + "\n".join(logs)
+                    cur = next((l.split("=", 1)[1] if "=" in l.split(":")[0] else l.split(": ", 1)[1] for l in text.splitlines()
+                                if l.startswith(("Current Version:", "CURRENT_VERSION="))), None)
+                    pep = next((l.split("=", 1)[1] if l.startswith("PEP440_VERSION=") else l.split(": ", 1)[1] for l in text.splitlines()
+                                if l.startswith(("PEP440_VERSION=", "PEP440"))), None)
+                    rep.case(("show", vp, bool(tags), tuple(flags)), nontrivial=code == 0)
+                    rep.count("show-runs")
+                    inp = dict(version_pattern=vp, config_version=cfgv, tags=tags, args=["show", "--no-fetch"] + flags, exit=code, current=cur, pep440=pep)
+                    if code != 0 or cur is None or pep is None:
+                        if flags != ["-e"]:      # the deprecated spelling may be gone; the documented ones must work
+                            rep.violation("`bumpver show` does not print the current version and its PEP 440 form", input=dict(inp, out=text[-300:]), **{"class": "show-fails"})
+                        continue
+                    cur, pep = cur.strip(), pep.strip()
+                    want = tag if tags else cfgv
+                    try:
+                        same = pv.Version(pep) == pv.Version(cur)
+                    except Exception:
+                        same = False
+                    if cur != want or not same:
+                        rep.violation("`show` prints PEP440 %r next to version %r (expected the version %r and its PEP 440 form)" % (pep, cur, want), input=inp, **{"class": "pep440-vs-cli"})
 
 
 def search(rep, tier, seed, effort=2):
